@@ -1427,6 +1427,29 @@ def kind_family(runner, max_bytes=7000):
     return pairs, cpairs
 
 
+def multiline_family():
+    """Insertions behind *multi-line* elements (the end position differs from the start in line and
+    column): behind a multi-line last import, behind a multi-line middle import, behind a multi-line last /
+    middle toplevel, and into a module whose only import / toplevel is multi-line."""
+    mi = "import {\n  Zed,\n  Bar\n} from lib.deep.C;"
+    mi2 = "import {\n  Foo\n}\n  from\n  A;"   # (a `;`-less import + raw differ insert is the golden-pinned glue; kept out)
+    mc = "class K6 {\n  function h(): int = 2\n}"
+    mc2 = "interface I9 {\n  function g(): int\n  method m(a: int): int\n}"
+    one = "import { Only } from D;"
+    cl = "class K1 {}"
+    pairs = []
+    for imp in (mi, mi2):
+        for tops in (mc, cl, mc + "\n" + mc2):
+            base = imp + "\n" + tops + "\n"
+            pairs.append((base, imp + "\n" + one + "\n" + tops + "\n"))                  # new import on its own line below
+            pairs.append((one + "\n" + imp + "\n\n" + tops + "\n", one + "\n" + imp + "\n" + "import {Qux} from lib.B;" + "\n" + tops + "\n"))
+            pairs.append((base, imp + "\n" + tops + "\n" + mc2.replace("I9", "I8") + "\n"))   # toplevel behind a multi-line last toplevel
+            pairs.append((base, imp + "\n" + tops + "\n" + cl.replace("K1", "K7") + "\n"))
+    pairs.append((mc + "\n\n" + mc2 + "\n", mc + "\n" + cl + "\n" + mc2 + "\n"))                # behind a multi-line middle toplevel
+    pairs.append((mi + "\n", mi + "\n" + mc + "\n"))                                            # Err path behind a multi-line last import
+    return pairs
+
+
 def check_full_document_tie(ctx, runner, cpairs, label, stats):
     lines = []
     for a, b in cpairs:
@@ -1569,6 +1592,7 @@ def run(ctx):
         # deterministic families
         if not ctx.violations:
             kp, kc = kind_family(runner)
+            kp = multiline_family() + kp
             stats["kind_family_pairs"] = len(kp); stats["kind_family_comment_pairs"] = len(kc)
             for i in range(0, len(kp), 200):
                 check_mdiffs(ctx, runner, kp[i:i + 200], "deterministic kind family (tests/*.sam, std/*.sam)", stats)
@@ -1649,9 +1673,9 @@ def run(ctx):
         "not modelled (oracle only): pretty-printing of the inserted import, `Change::to_edit` text assembly, "
         "Location arithmetic on real tokens, ServerState bookkeeping",
     ], extra={"partial_theorems": [], "pending": [
-        "one composed text statement for compute_module_diff's whole edit list (import edits followed by toplevel edits): today "
-        "text_lift / import_edits_text / toplevel_err_text / toplevel_edits_eq cover each list separately and the `medits` tie "
-        "+ module-pair oracle cover the concatenation"]})
+        "module_diff_text is stated at (line, col) level for modules with >= 1 old toplevel; for the toplevel Err path (no old "
+        "toplevel) the composition is covered by the offset-level module_edits_text (any layouts, incl. the constant one) and "
+        "toplevel_err_text, not by a separate (line, col) corollary"]})
 
 
 def replay(ctx, path):
